@@ -159,17 +159,60 @@ pub fn panic_site(msg: &str) -> String {
 
 /// Deterministic body bytes: a function of (id, length) only.  Every byte
 /// depends on the id, so bodies of different transfers / versions differ.
+/// Bit of a body id that selects "patterned" content (may contain zero
+/// bytes, runs, text, a trailing 0xFF).  Without it a body never contains
+/// 0x00, so that zero-filled (fresh) buffers are distinguishable from data.
+pub const BODY_PATTERNED: u64 = 1 << 62;
+
 pub fn gen_body(id: u64, len: usize) -> Vec<u8> {
     let mut r = crate::choices::Xoshiro::new(id ^ 0xB0D1_B0D1_B0D1_B0D1);
     let mut out = Vec::with_capacity(len);
+    let patterned = id & BODY_PATTERNED != 0;
+    let kind = if patterned { r.next() % 6 } else { 99 };
     while out.len() < len {
         let mut v = r.next();
         for _ in 0..8 {
             if out.len() < len {
-                // never 0x00: zero-filled (fresh) buffers must be
-                // distinguishable from any generated data
                 let b = (v & 0xFF) as u8;
-                out.push(if b == 0 { 0xA5 } else { b });
+                out.push(match kind {
+                    // plain random bytes, zeros included
+                    0 => b,
+                    // long runs of 0x00 and 0xFF
+                    1 => {
+                        if (out.len() / 24) % 2 == 0 {
+                            0x00
+                        } else {
+                            0xFF
+                        }
+                    }
+                    // ASCII text
+                    2 => b"the quick brown fox; jumps, over <the> lazy \"dog\"\n"[out.len() % 50],
+                    // all zero
+                    3 => 0,
+                    // mostly random, every 16th byte zero (block starts)
+                    4 => {
+                        if out.len() % 16 == 0 {
+                            0
+                        } else {
+                            b
+                        }
+                    }
+                    // random with 0xFF at block ends and at the very end
+                    5 => {
+                        if out.len() % 16 == 15 || out.len() + 1 == len {
+                            0xFF
+                        } else {
+                            b
+                        }
+                    }
+                    _ => {
+                        if b == 0 {
+                            0xA5
+                        } else {
+                            b
+                        }
+                    }
+                });
                 v >>= 8;
             }
         }
